@@ -243,16 +243,19 @@ def run_ops(pid, spec, tier, seed, workdir, extra_harness_args=None):
                            timeout=spec.get('timeout', 3000))
         if p.returncode != 0:
             raise RuntimeError('driver failed: %s' % p.stderr.decode()[-2000:])
-    with open(cases_path) as cf, open(outs_path) as of:
-        for cl, ol in zip(cf, of):
-            yield json.loads(cl), json.loads(ol)
+    try:
+        with open(cases_path) as cf, open(outs_path) as of:
+            for cl, ol in zip(cf, of):
+                yield json.loads(cl), json.loads(ol)
+    finally:
+        shutil.rmtree(workdir, ignore_errors=True)
 
 
 def check(pid, tier, seed):
     t0 = time.time()
     spec = props.PROPS[pid]
     os.makedirs(OUT, exist_ok=True)
-    workdir = os.path.join(CACHE, 'run', pid)
+    workdir = os.path.join(CACHE, 'run', '%s-%s-%d' % (pid, tier, os.getpid()))   # private: checks may run concurrently
     replay_dir = os.path.join(OUT, 'replay')
     os.makedirs(replay_dir, exist_ok=True)
     for f in os.listdir(replay_dir):
